@@ -957,6 +957,10 @@ func (e *absEnv) instrStr(fr *absFrame, in ssa.Instruction) bool {
 				return false
 			}
 			hi = int64(v)
+			if hi < 0 {
+				// an explicit negative bound (a wrapped-around sum, say) — not "no bound"
+				e.abort("slice bounds out of range: high bound %d", hi)
+			}
 		}
 		switch s := x.(type) {
 		case astr, astrv:
